@@ -58,6 +58,7 @@ let () =
   let oc = Sys.argv.(2) = "1" in
   let run : z list -> z list = match engine with
     | "addr" -> Model.run_addr oc
+    | "pte" -> Model.run_pte oc
     | _ -> failwith ("unknown engine " ^ engine) in
   let out = Buffer.create 65536 in
   (try
